@@ -118,7 +118,12 @@ def run(tier, PROP):
             import e2e_extra
             n_tok, n_e2e = (300, 60) if tier == "quick" else (4000, 600)
             os.makedirs(os.path.join(d, "e2e"), exist_ok=True)
-            e2e_extra.run(chk, PROP, [("memory", 1.0)], n_tok, n_e2e, 3, pr["driver_ok"], broken, os.path.join(d, "e2e"))
+            def data_mode_specs():
+                import e2e_common as ec
+                import initmem
+                return [s_ for s_ in ec.corpus_specs("C09") + ec.corpus_specs("C06") if "segment" in s_.get("corpus", "")] + \
+                    initmem.data_specs(chk.seed, 8 if tier == "quick" else 80)
+            e2e_extra.run(chk, PROP, [("memory", 1.0)], n_tok, n_e2e, 3, pr["driver_ok"], broken, os.path.join(d, "e2e"), data_mode_specs=data_mode_specs)
         if PROP == "C19":
             run_bufread(chk, repo, d, tier, broken)
             import c19_wasi                                      # the WASI host: real wasi.c little-endian vs forced big-endian
